@@ -225,23 +225,23 @@ Qed.
 Lemma step_impl_error_not_atomic_proof :
   exists o st u s e, snd (step_impl o st u s) = Err e /\ fst (step_impl o st u s) <> st.
 Proof.
-  exists {| leak := Some []; extra := [] |}, (new_engine 2 1), 0,
+  exists {| leak := Some [] |}, (new_engine 2 1), 0,
          (Ctas (None, 1%N) OnError (SrcRows [1%N] [7%N] true)), EOther.
   split; [reflexivity|]. vm_compute. discriminate.
 Qed.
 
 Lemma exec_oracle_irrelevant : forall o se s,
-  fails_at_runtime s = false -> is_self_insert se s = false -> exec o se s = exec no_oracle se s.
+  fails_at_runtime s = false -> exec o se s = exec no_oracle se s.
 Proof.
-  intros o se s Hf Hs. destruct s; try reflexivity.
-  - (* Insert *) cbn [exec]. cbn [is_self_insert] in Hs. rewrite Hs.
+  intros o se s Hf. destruct s; try reflexivity.
+  - (* Insert *) cbn [exec].
     destruct src as [c rws f|q]; cbn [fails_at_runtime] in Hf.
     + subst f. cbn [eval_source]. break_goal; reflexivity.
-    + destruct (resolve_ref r) as [s n]. destruct (lookup (schemas se) s n) as [[cols rows|t]|]; try reflexivity.
+    + destruct (resolve_ref r) as [s n]. destruct (lookup (schemas se) s n) as [ent|]; try reflexivity.
       destruct (eval_source (schemas se) (SrcRef q)) as [c9 new f|] eqn:E; [|reflexivity].
       assert (f = false).
       { cbn [eval_source] in E. destruct (read (schemas se) q) as [[c0 r0]|]; inversion E; reflexivity. }
-      subst f. destruct (negb (length c9 =? length cols)); reflexivity.
+      subst f. destruct ent as [cols rows|t]; [|reflexivity]. destruct (negb (length c9 =? length cols)); reflexivity.
   - (* Ctas *) cbn [exec]. destruct src as [c8 rws f|q]; cbn [fails_at_runtime] in Hf.
     + subst f. cbn [eval_source]. break_goal; reflexivity.
     + destruct (resolve_ref r) as [s n].
@@ -253,11 +253,10 @@ Qed.
 
 Theorem step_impl_agrees_proof : forall o st u s,
   fails_at_runtime s = false ->
-  (forall se, nth_error st u = Some se -> is_self_insert se s = false) ->
   step_impl o st u s = step st u s.
 Proof.
-  intros o st u s Hf Hs. unfold step, step_impl. destruct (nth_error st u) as [se|] eqn:Hn; [|reflexivity].
-  rewrite (exec_oracle_irrelevant o se s Hf (Hs se eq_refl)). reflexivity.
+  intros o st u s Hf. unfold step, step_impl. destruct (nth_error st u) as [se|] eqn:Hn; [|reflexivity].
+  rewrite (exec_oracle_irrelevant o se s Hf). reflexivity.
 Qed.
 
 Definition ine_stmt (s : stmt) : bool :=
